@@ -293,7 +293,8 @@ class BehavioralRTLIRToVVisitorL1( bir.BehavioralRTLIRNodeVisitor ):
   def visit_Number( s, node ):
     """Return a number in string."""
     nbits = node.Type.get_dtype().get_length()
-    return f"{nbits}'d{node.value}"
+    # N'd-2 is not a number in Verilog: two's complement in N bits
+    return f"{nbits}'d{node.value & ( ( 1 << nbits ) - 1 )}"
 
   #-----------------------------------------------------------------------
   # visit_Concat
@@ -626,6 +627,10 @@ class BehavioralRTLIRToVVisitorL1( bir.BehavioralRTLIRNodeVisitor ):
 
   def visit_FreeVar( s, node ):
     nbits = node.Type.get_dtype().get_length()
+    if type( node.obj ) is int and node.obj < 0:
+      # The declared constant has its own (smaller) width and a cast would
+      # zero-extend it: two's complement in the width of the context
+      return f"{nbits}'d{node.obj & ( ( 1 << nbits ) - 1 )}"
     return f"{nbits}'( __const__{node.name} )"
 
   #-----------------------------------------------------------------------
